@@ -60,7 +60,7 @@ F_LIB = "join/src/lib.rs"
 M_OF_COMB = "meaning_of_ctor(parse_table({c}).1)"
 
 
-MODULES = ["core", "optable", "entries"]
+MODULES = ["core", "optable", "entries", "gen", "guards", "names"]
 
 
 def common_units():
@@ -268,11 +268,64 @@ def core_units():
     fl = []
     for n in names:
         arg = "index" if n in one else ""
-        fl.append(fn(n, "r", ensures=["r.name() == %s_spec(%s)" % (n, arg)]))
-    fl.append(fn("construct_expr_wrapper_name", "r",
-                 ensures=["r.name() == construct_expr_wrapper_name_spec(index, expr_index, internal_index)"]))
+        fl.append(fn(n, "r", ensures=["r.name() =~= %s_spec(%s)" % (n, arg)], proof_prologue="proof { lemma_names_strlits(); }"))
+    fl.append(fn("construct_expr_wrapper_name", "r", proof_prologue="proof { lemma_names_strlits(); }",
+                 ensures=["r.name() =~= construct_expr_wrapper_name_spec(index, expr_index, internal_index)"]))
     u.append(fns(F_NC, fl))
 
+    return u
+
+
+def gen_units():
+    """join_output.rs: the functions of the generator that are within Verus' reach (P1 + P2)"""
+    u = []
+    u.append(ty(F_JO, "ActionExprPos"))
+    u.append(ty(F_JO, "StepAcc"))
+    u.append(ty(F_JO, "JoinOutput"))
+    u.append(raw("specs_gen", _read("specs_gen.rs")))
+    u.append(fns(F_JO, [
+        fn("new", "r", ensures=["r.expr == expr", "r.branch_index == branch_index", "r.expr_index == expr_index"]),
+    ], self_ty="ActionExprPos"))
+    u.append(fns(F_JO, [
+        # C04: the three index functions
+        fn("active_step_branch_count", "r", mode="assumed",
+           ensures=["r == count_active(self.depths@, step_number as int)"]),
+        fn("is_branch_active_in_step", "r", requires=["branch_index < self.depths@.len()"],
+           ensures=["r == (self.depths@[branch_index as int] > step_number)"]),
+        fn("generate_indexed_step_results_name", "r", requires=["step_results_name.tokenizable()"],
+           ensures=["r@ == indexed_name(step_results_name.toks(), count_active(self.depths@, step_number as int), index)"]),
+        fn("wrap_into_block", "r", requires=["value.tokenizable()"],
+           ensures=["r@ == value_block(self.config.is_async, value.toks())"]),
+        # C01: `->` call-with-value, `??` inspect, everything else `prev . method(operand)`
+        fn("expand_process_expr", "r", requires=["!(expr is UNWRAP)"],
+           ensures=["r@ == expanded(self.config.is_async, prev_result@, *expr)"],
+           proof_epilogue=""),
+    ], self_ty="JoinOutput"))
+    return u
+
+
+def guards_units():
+    """R8 expression extraction from JoinOutput::new (C13 kind/handler compatibility, C16 defaults)"""
+    u = []
+    u.append(raw("specs_guards", _read("specs_guards.rs")))
+    params = ("handler: Option<&Handler>, futures_crate_path: Option<&Path>, custom_joiner: Option<&TokenStream>, "
+              "custom_transpose_results: Option<bool>, lazy_branches: Option<bool>, config: Config, branch_count_in: usize")
+    sub = [{"find": "branches.len()", "replace": "branch_count_in", "why": "the only use of `branches` before the guard chain is its length"}]
+    u.append({"kind": "exprs", "file": F_JO, "self_ty": "JoinOutput", "func": "new", "what": "guards", "name": "new_guards",
+              "params": params, "subst": sub,
+              "ensures": ["r.0 == doc_guard(config.is_try, config.is_async, handler_kind(handler), futures_crate_path is Some, branch_count_in as int)",
+                          "r.1"]})
+    u.append({"kind": "exprs", "file": F_JO, "self_ty": "JoinOutput", "func": "new", "what": "field_inits", "name": "new_init",
+              "params": params, "subst": sub,
+              "fields": [
+                  {"name": "lazy_branches", "ty": "bool", "ensures": ["r == doc_lazy_default(lazy_branches, config.is_spawn, config.is_async)"]},
+                  {"name": "transpose", "ty": "bool", "ensures": ["r == doc_transpose_default(custom_transpose_results, config.is_try, config.is_async)"]},
+              ]})
+    u.append(fns(F_H, [
+        fn("is_map", "r", ensures=["r == (self is Map)"]),
+        fn("is_then", "r", ensures=["r == (self is Then)"]),
+        fn("is_and_then", "r", ensures=["r == (self is AndThen)"]),
+    ], self_ty="Handler"))
     return u
 
 
@@ -285,6 +338,13 @@ def build_plan(repo, module):
         u.append(raw("lemma", _read("lemma_optable.rs")))
     elif module == "entries":
         u.append(raw("lemma", _read("lemma_entries.rs")))
+    elif module == "names":
+        u.append(raw("lemma", _read("lemma_names.rs")))
+    elif module == "gen":
+        u += core_units()
+        u += gen_units()
+    elif module == "guards":
+        u += guards_units()
     else:
         raise KeyError(module)
     u.append(raw("footer", "} // verus!\nfn main() {}\n"))
@@ -297,12 +357,18 @@ OBLIGATIONS = {
             ("optable", "lemma_operator_tables"),
             # operator identity survives hoisting a block operand / splicing a wrapper closure
             ("core", "ProcessExpr::replace_inner_exprs"), ("core", "ErrExpr::replace_inner_exprs"),
-            ("core", "InitialExpr::replace_inner_exprs"), ("core", "ActionExpr::replace_inner_exprs")],
+            ("core", "InitialExpr::replace_inner_exprs"), ("core", "ActionExpr::replace_inner_exprs"),
+            ("gen", "JoinOutput::expand_process_expr")],
     "C02": [("core", "Combinator::can_be_wrapper"), ("core", "ActionGroup::to_wrapper_action_expr"),
             ("core", "ProcessExpr::replace_inner_exprs"), ("core", "ErrExpr::replace_inner_exprs"),
             ("core", "InitialExpr::replace_inner_exprs"), ("core", "ActionExpr::replace_inner_exprs"),
             ("core", "ExprGroup::replace_inner_exprs")],
+    "C04": [("gen", "JoinOutput::is_branch_active_in_step"), ("gen", "JoinOutput::generate_indexed_step_results_name")],
     "C07": [("entries", "lemma_entry_table")],
+    "C13": [("guards", "new_guards")],
+    "C16": [("guards", "new_init_lazy_branches"), ("guards", "new_init_transpose")],
+    "C17": [("names", "lemma_names_never_clash"), ("names", "lemma_names_table"), ("names", "lemma_name3_injective"), ("names", "lemma_name1_injective"), ("names", "lemma_distinguishable"), ("names", "lemma_names_strlits")] + [("core", n) for n in ['construct_var_name', 'construct_step_results_name', 'construct_result_name', 'construct_thread_builder_name', 'construct_inspect_fn_name', 'construct_spawn_tokio_fn_name', 'construct_results_name', 'construct_handler_name', 'construct_internal_value_name', 'construct_thread_builder_fn_name', 'construct_expr_wrapper_name']],
+    "C20": [("core", n) for n in ['construct_var_name', 'construct_step_results_name', 'construct_result_name', 'construct_thread_builder_name', 'construct_inspect_fn_name', 'construct_spawn_tokio_fn_name', 'construct_results_name', 'construct_handler_name', 'construct_internal_value_name', 'construct_thread_builder_fn_name', 'construct_expr_wrapper_name']],
     "C11": [("core", "ProcessExpr::is_replaceable"), ("core", "ProcessExpr::inner_exprs"),
             ("core", "ProcessExpr::replace_inner_exprs"), ("core", "ErrExpr::inner_exprs"),
             ("core", "ErrExpr::replace_inner_exprs"), ("core", "InitialExpr::inner_exprs"),
